@@ -598,7 +598,7 @@ pub(crate) fn run(opts: &Opts, report: &mut Report) {
     let configs: Vec<(usize, u8, usize)> = if thorough {
         vec![(1, 0, 6), (1, 1, 5), (1, 2, 5), (2, 0, 4), (2, 1, 4), (2, 2, 4)]
     } else {
-        vec![(1, 0, 4), (1, 1, 4), (1, 2, 3), (2, 1, 2)]
+        vec![(1, 0, 4), (1, 1, 3), (1, 2, 3), (2, 1, 2)]
     };
     const SHARDS: usize = 16;
     let n_items = configs.len() * SHARDS;
@@ -669,6 +669,6 @@ pub(crate) fn run(opts: &Opts, report: &mut Report) {
     report.set("distinct_nontrivial", json!(report.get("states")));
     report.set("traces_validated_against_impl", json!(report.get("replays")));
     report.set("rule", json!("state = event list replayed on the real client (store + peers with exact ages + pending messages + world position + event budgets, fingerprinted); transitions = (state, enabled event) pairs executed; after every event the observed step of every peer is checked against the reference transition relation"));
-    report.set("bounds", json!({"depth": if thorough { "6 / 5 / 5 (1 peer: fresh / proven / proof request outstanding), 4 / 4 / 4 (2 peers)" } else { "4 / 4 / 3 (1 peer: fresh / proven / proof request outstanding), 2 (2 peers proven)" }, "budgets": "connect <= 2 per peer, disconnect <= 1, unsolicited last states <= 2, refresh ticks <= 3, duplicate <= 1, stale proof <= 1, fetch tick <= 1", "tick_deltas_ms": TICKS}));
+    report.set("bounds", json!({"depth": if thorough { "6 / 5 / 5 (1 peer: fresh / proven / proof request outstanding), 4 / 4 / 4 (2 peers)" } else { "4 / 3 / 3 (1 peer: fresh / proven / proof request outstanding), 2 (2 peers proven)" }, "budgets": "connect <= 2 per peer, disconnect <= 1, unsolicited last states <= 2, refresh ticks <= 3, duplicate <= 1, stale proof <= 1, fetch tick <= 1", "tick_deltas_ms": TICKS}));
     report.assume("the peer's messages are honest in content (C01 covers forged content); what varies is their order, timing, duplication and staleness");
 }
